@@ -5,12 +5,19 @@ def compare(op, impl, model, rep):
     if isinstance(model, dict) and "model_error" in model:
         return "model error: " + str(model["model_error"])
     if op.get("c") == "retry.e2e":
-        return None if impl == model else "end-to-end attempts/result differ"
+        if impl == model:
+            return None
+        if impl.get("attempts", 0) < model.get("attempts", 0) and str(model.get("result", "")) == "success" and impl.get("result") != "success":
+            # the statement names the transient classes (408, 409, 429, 5xx, connection errors): with retries left they are re-attempted
+            return "VIOLATES: a transient failure (theorem C17_status_table_*, C17_attempts) was not re-attempted although retries were left: %d attempts, the script allows %d and ends in a success" % (impl.get("attempts", 0), model.get("attempts", 0))
+        return "end-to-end attempts/result differ"
     if op.get("c") != "retry.execute":
         return None if impl == model else "outcomes differ"
     if impl["attempts"] != model["attempts"]:
         return "attempts differ"
     if impl["result"] != model["result"]:
+        if model["result"] == "ctxErr":
+            return "VIOLATES: a cancelled sequence did not end with the context's error (theorem C17_cancel*): the call returned %s, the caller's ctx.Err() was expected" % impl["result"]
         return "result differs"
     waits = model["waits"]
     gaps = impl["waits"]
